@@ -169,6 +169,15 @@ CLAIMED = {
                 "in-text in-order substring, datetime[, language among those requested]). Free text is outside.",
         "design_ref": "DESIGN.md §3 C17",
     },
+    "C18": {
+        "text": "Relational, two API runs per symbolic path with shared symbolic digits: (i) whitespace - each rewriting "
+                "of the fixed family (lead/trail/pad, doubled/tripled spaces, tab, newline, NBSP, mixed runs, trailing "
+                "colon, pad/colon combinations) applied to 20 templates in en/fr/ru/de/tl/sv; (ii) digit script - every "
+                "Unicode Nd block (enumerated from unicodedata, ~70) substituted for the ASCII digits of 10 templates, the "
+                "digit values symbolic; z3 shows per path that both parses are None or equal field-wise incl. tz and "
+                "period. The multilingual corpus is outside.",
+        "design_ref": "DESIGN.md §3 C18",
+    },
     "C19": {
         "text": "The real _load_offsets and the real C pickle.load are executed over a file proxy whose length k is a z3 "
                 "integer in [0, N] (shipped cache and 7 other contents: wrong-shape pickles, non-pickle bytes), plus the "
